@@ -1304,6 +1304,11 @@ namespace
             if (failed)
                 return;
             s->unwind(mr.idx);
+            if (s->complaint_)
+            {
+                fail("raii-unwinder", s->complaint_);
+                return;
+            }
             ++gen;
             seq = mr.seq; // everything younger is gone; keeps "seq differs <=> an allocation lies between"
             size_t nested = markers.size();
